@@ -220,7 +220,10 @@ pub fn parse(expression: &str) -> Result<Tokenized<'_, ExpressionMetadata>, Pars
     // Explicit lifetimes prevent inference errors.
     #[allow(clippy::needless_lifetimes)]
     fn flags_with_state<'i>(input: Input<'i>) -> ParseResult<'i, ()> {
-        flags(move |toggle| {
+        // Flags at the beginning of a sub-expression do not end the beginning: a tree wildcard may
+        // follow them (as in `(?i)**/a`).
+        let is_beginning = input.state.subexpression == input.location();
+        let (mut input, _) = flags(move |toggle| {
             move |mut input: Input<'i>| {
                 match toggle {
                     CaseInsensitive(toggle) => {
@@ -229,7 +232,11 @@ pub fn parse(expression: &str) -> Result<Tokenized<'_, ExpressionMetadata>, Pars
                 }
                 Ok((input, ()))
             }
-        })(input)
+        })(input)?;
+        if is_beginning {
+            input.state.subexpression = input.location();
+        }
+        Ok((input, ()))
     }
 
     // Explicit lifetimes prevent inference errors.
